@@ -3,6 +3,7 @@ package main
 import (
 	"fmt"
 	"go/ast"
+	"go/token"
 	"go/types"
 	"sort"
 	"strings"
@@ -811,7 +812,6 @@ func derefType(t types.Type) types.Type {
 	return t
 }
 
-
 func nSlices(t *types.Named) int {
 	n := 0
 	for _, f := range structFields(t) {
@@ -820,4 +820,193 @@ func nSlices(t *types.Named) int {
 		}
 	}
 	return n
+}
+
+// fieldCarriesState: the struct field is read somewhere in the module in a way that lets its content matter — a load
+// whose value is used for anything but being truncated to length 0 (`x.f[:0]`: a scratch buffer that every user
+// empties first), or its address handed on. A field that no code reads (or that is only ever emptied before use)
+// carries no state between calls: rules that enumerate "every field" (copies, clears, the statistics tables) have no
+// obligation for it.
+func (c *Ctx) fieldCarriesState(v *types.Var) bool {
+	if c.live == nil {
+		c.live = map[*types.Var]bool{}
+		fieldVar := func(t types.Type, idx int) *types.Var {
+			if p, ok := t.Underlying().(*types.Pointer); ok {
+				t = p.Elem()
+			}
+			if st, ok := t.Underlying().(*types.Struct); ok && idx < st.NumFields() {
+				return st.Field(idx)
+			}
+			return nil
+		}
+		for _, f := range c.P.Funcs {
+			if !inModule(f) {
+				continue
+			}
+			for _, b := range f.Blocks {
+				for _, in := range b.Instrs {
+					switch x := in.(type) {
+					case *ssa.Field:
+						if fv := fieldVar(x.X.Type(), x.Field); fv != nil {
+							c.live[fv] = true
+						}
+					case *ssa.FieldAddr:
+						fv := fieldVar(x.X.Type(), x.Field)
+						if fv == nil || x.Referrers() == nil {
+							continue
+						}
+						for _, r := range *x.Referrers() {
+							switch r := r.(type) {
+							case *ssa.Store:
+								if r.Addr != ssa.Value(x) {
+									c.live[fv] = true // the address itself is stored somewhere
+								}
+							case *ssa.DebugRef:
+							case *ssa.UnOp:
+								if r.Op != token.MUL || r.Referrers() == nil {
+									c.live[fv] = true
+									continue
+								}
+								for _, u := range *r.Referrers() {
+									switch u := u.(type) {
+									case *ssa.DebugRef:
+									case *ssa.Slice:
+										k, isK := u.High.(*ssa.Const)
+										if !(u.X == ssa.Value(r) && u.Low == nil && isK && k.Value != nil && k.Value.String() == "0") {
+											c.live[fv] = true
+										}
+									default:
+										c.live[fv] = true
+									}
+								}
+							default:
+								c.live[fv] = true // FieldAddr of a nested field, address passed to a call, …
+							}
+						}
+					}
+				}
+			}
+		}
+		// a whole-struct load `*p` reads every field of the struct: treat as reading them all only outside Copy-like
+		// clones — not needed: a field nobody reads individually does not matter to any answer
+	}
+	return c.live[v]
+}
+
+// structFieldVar: the *types.Var of the (possibly embedded) field path of struct type t.
+func structFieldVar(t types.Type, path []string) *types.Var {
+	for i, name := range path {
+		st, ok := t.Underlying().(*types.Struct)
+		if !ok {
+			return nil
+		}
+		var fv *types.Var
+		for j := 0; j < st.NumFields(); j++ {
+			if st.Field(j).Name() == name {
+				fv = st.Field(j)
+			}
+		}
+		if fv == nil {
+			return nil
+		}
+		if i == len(path)-1 {
+			return fv
+		}
+		t = fv.Type()
+	}
+	return nil
+}
+
+
+// locIsScratch: the access path rest (".f.g[*]" as the write-set analysis prints it), followed from a value of type
+// t, passes through a field that carries no state (fieldCarriesState) — for every struct type the path can denote
+// (an interface-typed field stands for all its implementations in the module).
+func (c *Ctx) locIsScratch(t types.Type, rest string) bool {
+	cands := []types.Type{t}
+	for len(rest) > 0 {
+		switch {
+		case strings.HasPrefix(rest, "[*]"):
+			rest = rest[3:]
+			var next []types.Type
+			for _, ct := range cands {
+				switch u := ct.Underlying().(type) {
+				case *types.Slice:
+					next = append(next, u.Elem())
+				case *types.Array:
+					next = append(next, u.Elem())
+				case *types.Map:
+					next = append(next, u.Elem())
+				case *types.Pointer:
+					next = append(next, u.Elem())
+				}
+			}
+			cands = next
+		case rest[0] == '.':
+			rest = rest[1:]
+			i := strings.IndexAny(rest, ".[")
+			name := rest
+			if i >= 0 {
+				name, rest = rest[:i], rest[i:]
+			} else {
+				rest = ""
+			}
+			var structs []types.Type
+			for _, ct := range cands {
+				for {
+					p, ok := ct.Underlying().(*types.Pointer)
+					if !ok {
+						break
+					}
+					ct = p.Elem()
+				}
+				if _, isI := ct.Underlying().(*types.Interface); isI {
+					if nt, ok := ct.(*types.Named); ok {
+						for _, impl := range c.P.Implementations(nt) {
+							structs = append(structs, impl)
+						}
+					}
+					continue
+				}
+				structs = append(structs, ct)
+			}
+			any, allScratch := false, true
+			var next []types.Type
+			var find func(st types.Type) *types.Var
+			find = func(st types.Type) *types.Var {
+				s, ok := st.Underlying().(*types.Struct)
+				if !ok {
+					return nil
+				}
+				for j := 0; j < s.NumFields(); j++ {
+					if s.Field(j).Name() == name {
+						return s.Field(j)
+					}
+				}
+				for j := 0; j < s.NumFields(); j++ {
+					if s.Field(j).Embedded() {
+						if fv := find(s.Field(j).Type()); fv != nil {
+							return fv
+						}
+					}
+				}
+				return nil
+			}
+			for _, st := range structs {
+				if fv := find(st); fv != nil {
+					any = true
+					if c.fieldCarriesState(fv) {
+						allScratch = false
+					}
+					next = append(next, fv.Type())
+				}
+			}
+			if any && allScratch {
+				return true
+			}
+			cands = next
+		default:
+			return false
+		}
+	}
+	return false
 }
